@@ -322,6 +322,9 @@ def make_universe(r: random.Random, qa: list, shard: int, nsessions: int, nbodie
     if nsessions >= 3:
         # a same-width twin of the first session that differs in exactly ONE other negotiated parameter (rotating over the shards)
         flipped = 1 + (shard // 2) % 4
+        if flipped == 3 and first.endswith('/aigp'):
+            # the peering only matters to AIGP when the option is off (kept on IBGP, dropped on EBGP)
+            first = chosen[0] = twin(first, 4)
         chosen.insert(1, twin(first, flipped))
     if nsessions >= 4:
         chosen.append(twin(other, 1 + (shard // 2 + 1 + shard % 3) % 4))
@@ -329,7 +332,7 @@ def make_universe(r: random.Random, qa: list, shard: int, nsessions: int, nbodie
     # group 0 (dual AS_PATH) always; the others in rotation over the shards so that every group is taken by several shards
     order = list(range(1, len(groups) - 1))
     random.Random(977).shuffle(order)
-    if flipped == 4:
+    if flipped in (3, 4):  # AIGP is kept on IBGP and dropped on EBGP sessions: the peering twin matters to it as well
         order.remove(2)
         order.insert((shard * 2) % (len(order) + 1), 2)  # the AIGP group meets the sessions that differ in the AIGP option
     items = list(groups[0][:per_group]) + [groups[-1][shard % len(groups[-1])]]
